@@ -101,12 +101,17 @@ class World:
         self.log.append((kind, raw, norm))
         self.sched.step(kind)
 
-    def mutate(self, kind, raw, norm=None):
-        """Numbered mutation.  Returns False if the process is dead (nothing happens)."""
+    def mutate(self, kind, raw, norm=None, step=True):
+        """Numbered mutation.  Returns False if the process is dead (nothing happens).
+
+        step=False: the caller already passed the preemption point (`access`) BEFORE evaluating the
+        condition of a check-and-mutate primitive (O_EXCL create, compare-and-set, mkdir, unlink, ...),
+        which makes the primitive atomic with respect to the intruder."""
         if self.dead:
             return False
-        self.log.append((kind, raw, norm))
-        self.sched.step(kind)
+        if step:
+            self.log.append((kind, raw, norm))
+            self.sched.step(kind)
         self.muts += 1
         if self.crash_at is not None and self.muts == self.crash_at:
             self.dead = True
@@ -191,10 +196,10 @@ class World:
     # -- mutations --------------------------------------------------------------------------------
     def mkdir(self, path):
         p = self.resolve(path)
+        self.access("mkdir", path, p)
         if p in self.dirs or p in self.files:
-            self.access("mkdir-exists", path, p)
             raise FileExistsError(errno.EEXIST, "File exists", path)
-        if self.mutate("mkdir", path, p):
+        if self.mutate("mkdir", path, p, step=False):
             self.dirs.add(p)
 
     def makedirs(self, path):
@@ -208,33 +213,32 @@ class World:
 
     def unlink(self, path):
         p = self.resolve(path)
+        self.access("unlink", path, p)
         if p in self.dirs:
-            self.access("unlink-dir", path, p)
             raise IsADirectoryError(errno.EISDIR, "Is a directory", path)
         if p not in self.files:
-            self.access("unlink-missing", path, p)
             raise FileNotFoundError(errno.ENOENT, "No such file or directory", path)
-        if self.mutate("unlink", path, p):
+        if self.mutate("unlink", path, p, step=False):
             del self.files[p]
 
     def replace(self, src, dst):
         s, d = self.resolve(src), self.resolve(dst)
+        self.access("replace", dst, d)
         if s not in self.files:
-            self.access("replace-missing", src, s)
             raise FileNotFoundError(errno.ENOENT, "No such file or directory", src)
         if d in self.dirs:
             raise IsADirectoryError(errno.EISDIR, "Is a directory", dst)
-        if self.mutate("replace", dst, d):
+        if self.mutate("replace", dst, d, step=False):
             self.files[d] = self.files.pop(s)
 
     def rmtree(self, path):
         p = self.resolve(path)
+        self.access("rmtree", path, p)
         if p not in self.dirs:
-            self.access("rmtree-missing", path, p)
             if p in self.files:
                 raise NotADirectoryError(errno.ENOTDIR, "Not a directory", path)
             raise FileNotFoundError(errno.ENOENT, "No such file or directory", path)
-        if self.mutate("rmtree", path, p):
+        if self.mutate("rmtree", path, p, step=False):
             prefix = p if p.endswith("/") else p + "/"
             for d in [d for d in self.dirs if d == p or d.startswith(prefix)]:
                 self.dirs.discard(d)
@@ -249,10 +253,10 @@ class World:
         binary = "b" in mode
         if "w" in mode:
             p = self.resolve(path)
+            self.access("truncate", path, p)
             if p in self.dirs:
-                self.access("open-dir", path, p)
                 raise IsADirectoryError(errno.EISDIR, "Is a directory", path)
-            if self.mutate("truncate", path, p):
+            if self.mutate("truncate", path, p, step=False):
                 self.files[p] = b""
             return MFile(self, path, p, binary, True)
         p = self.resolve(path)
@@ -581,20 +585,20 @@ class Refs:
     def set_if_equals(self, name, old, new, **kw):
         st = self._repo._st()
         full = self._full(name)
+        CUR.access("ref-cas", self._repo.path)
         if st.refs.get(full) != old:
-            CUR.access("ref-cas-fail", self._repo.path)
             return False
-        if CUR.mutate("ref-set", self._repo.path):
+        if CUR.mutate("ref-set", self._repo.path, step=False):
             st.refs[full] = new
         return True
 
     def add_if_new(self, name, new, **kw):
         st = self._repo._st()
         full = self._full(name)
+        CUR.access("ref-cas", self._repo.path)
         if full in st.refs:
-            CUR.access("ref-cas-fail", self._repo.path)
             return False
-        if CUR.mutate("ref-set", self._repo.path):
+        if CUR.mutate("ref-set", self._repo.path, step=False):
             st.refs[full] = new
         return True
 
@@ -653,11 +657,11 @@ class GitFile:
         self._path = path
         repo_path = path[: -len("/.git/index")]
         self._repo_path = CUR.resolve(repo_path)
+        CUR.access("lock-create", repo_path)
         st = CUR.repos[self._repo_path]
         if st.index_lock is not None:
-            CUR.access("lock-busy", repo_path)
             raise FileLocked(path, path + ".lock")
-        if CUR.mutate("lock-create", repo_path):
+        if CUR.mutate("lock-create", repo_path, step=False):
             st.index_lock = {}
         self._closed = False
 
